@@ -29,6 +29,15 @@ import (
 
 var fixture, exprs, aggs = typefix.Fixture, typefix.Exprs, typefix.Aggs
 
+// string columns whose character capacity and byte capacity order differently (character sets of
+// different widths, binary strings): the reported type of a conditional / set operation over two
+// of them must still admit every value either operand can produce.
+var wideFixture = []string{
+	"CREATE TABLE w (k INT PRIMARY KEY, l1 VARCHAR(30) CHARACTER SET latin1, u8 VARCHAR(10), vb VARBINARY(30), lc CHAR(20) CHARACTER SET latin1, u16 VARCHAR(8) CHARACTER SET utf16, u3 VARCHAR(12) CHARACTER SET utf8mb3)",
+	"INSERT INTO w VALUES (1, REPEAT('a', 30), REPEAT('b', 10), REPEAT('c', 30), REPEAT('d', 20), REPEAT('e', 8), REPEAT('f', 12)), (2, 'x', 'y', 'z', 'p', 'q', 'r'), (3, NULL, REPEAT('b', 10), NULL, REPEAT('d', 20), NULL, REPEAT('f', 12)), (4, REPEAT('a', 30), NULL, REPEAT('c', 30), NULL, REPEAT('e', 8), NULL)",
+}
+var wideCols = []string{"l1", "u8", "vb", "lc", "u16", "u3"}
+
 type colTy struct {
 	Base     string `json:"base"`
 	P        int    `json:"p"`
@@ -191,6 +200,9 @@ func main() {
 	for _, f := range fixture {
 		s.MustExec(f)
 	}
+	for _, f := range wideFixture {
+		s.MustExec(f)
+	}
 	// generated C02-style schema for the AST-generated queries
 	g := sqlgen.New(*seed)
 	tabs := g.Schema(3)
@@ -221,7 +233,17 @@ func main() {
 			src = cols
 			return "SELECT " + strings.Join(cols, ", ") + " " + from
 		}
-		switch r.Intn(9) {
+		switch r.Intn(10) {
+		case 9:
+			kind = "string-width-mix"
+			x, y := pick(wideCols), pick(wideCols)
+			form := pick([]string{"IF(k %% 2 = 0, %s, %s)", "IFNULL(%s, %s)", "COALESCE(%s, %s)", "CASE WHEN k < 3 THEN %s ELSE %s END", "CASE k WHEN 1 THEN %s WHEN 4 THEN %s END", "NULLIF(%s, %s)", "CONCAT(%s, %s)", "GREATEST(%s, %s)"})
+			if r.Intn(4) == 0 {
+				q = fmt.Sprintf("SELECT %s FROM w UNION ALL SELECT %s FROM w", x, y)
+				src = []string{x + " UNION " + y}
+			} else {
+				q = sel("FROM w", fmt.Sprintf(form, x, y), fmt.Sprintf(form, y, x))
+			}
 		case 0, 1:
 			kind = "select-list"
 			q = sel("FROM a", pick(exprs), pick(exprs), pick(exprs))
